@@ -22,7 +22,8 @@ META = {
 }
 PAIRS_TPI = [("fixed_frame", "rigid_body"), ("fixed_frame", "point_mass"), ("point_mass", "point_mass"), ("rigid_body", "rigid_body"),
              ("rigid_body", "point_mass"), ("point_mass", "fixed_frame"), ("rigid_body", "fixed_frame"),
-             ("moving_frame", "point_mass"), ("rigid_body", "rotating_frame")]
+             ("moving_frame", "point_mass"), ("rigid_body", "rotating_frame"),
+             ("rod", "rigid_body"), ("point_mass", "rod"), ("rod", "rod"), ("fixed_frame", "rod")]
 PAIRS_REV = [("fixed_frame", "rigid_body"), ("rigid_body", "rigid_body"), ("rigid_body", "fixed_frame"),
              ("rod", "rigid_body"), ("rigid_body", "rod"), ("rod", "rod"), ("fixed_frame", "rod")]
 
